@@ -4,8 +4,8 @@
    rejected: `promised syms c P w` = w is over syms and satisfies P, resp. not P when c = false). *)
 From Coq Require Import List Arith Bool.
 From AV Require Import Base.Util Spec.Lang Spec.FA Spec.Minimal Spec.Preds Model.Decide Model.Product Model.Construct
-                       Model.KMP
-                       Proofs.Preds Proofs.Border Proofs.Construct Proofs.IsMinimal Proofs.CtorMinimal Proofs.KMP.
+                       Model.KMP Model.AhoCorasick
+                       Proofs.Preds Proofs.Border Proofs.Construct Proofs.IsMinimal Proofs.CtorMinimal Proofs.KMP Proofs.ACLang.
 Import ListNotations.
 
 (* ---- from_prefix: contains / complement, partial / complete ---- *)
@@ -103,6 +103,74 @@ Proof.
   - split; [apply pb_pbord; [exact Hn|apply le_n]|]. intros k Hk. apply pb_max; [exact Hn|apply le_n|exact Hk].
 Qed.
 Print Assumptions C15_kmp_table_spec.
+
+(* ---- from_substrings: the mirror model of the Aho-Corasick construction (Model/AhoCorasick.v: trie with labels
+        in insertion order, breadth-first failure links, output inheritance along failure links, the goto
+        completion loop, the absorbing end state when not must_be_suffix, the early return for the empty pattern).
+        The patterns are a LIST (the iteration order of the Python set is a schedule); every theorem is for ALL
+        lists, so the language does not depend on the order (C15_from_substrings_order_independent).
+        The model never raises / never runs out of fuel, its result is a valid DFA, and it accepts exactly the
+        words over the alphabet that end with (must_be_suffix) / contain a pattern, or the complement. ---- *)
+Theorem C15_from_substrings_suffix_lang : forall syms pats contains, NoDup syms ->
+  exists m, ac_dfa syms pats contains true = Ok m /\ valid_dfa m = true /\
+            L_dfa m =L promised syms contains (ends_with_any pats).
+Proof.
+  intros syms pats c Hnd. destruct (ac_dfa_suffix_correct syms pats c Hnd) as [m [E [V A]]].
+  exists m. split; [exact E|]. split; [exact V|].
+  apply (promised_lang _ syms c (ends_with_any pats) (anysufb pats)); [intro w; apply anysufb_spec|exact A].
+Qed.
+Print Assumptions C15_from_substrings_suffix_lang.
+
+(* "contains one of the patterns": needs the patterns to be over the alphabet - see the refuted instance below *)
+Theorem C15_from_substrings_lang : forall syms pats contains, NoDup syms ->
+  (forall p, In p pats -> word_over syms p) ->
+  exists m, ac_dfa syms pats contains false = Ok m /\ valid_dfa m = true /\
+            L_dfa m =L promised syms contains (contains_any pats).
+Proof.
+  intros syms pats c Hnd Ho. destruct (ac_dfa_substring_correct syms pats c Hnd Ho) as [m [E [V A]]].
+  exists m. split; [exact E|]. split; [exact V|].
+  apply (promised_lang _ syms c (contains_any pats) (anysubb pats)); [intro w; apply anysubb_spec|exact A].
+Qed.
+Print Assumptions C15_from_substrings_lang.
+
+(* the iteration order of the pattern set (and repetitions) cannot be observed in the language *)
+Theorem C15_from_substrings_order_independent : forall syms pats pats' contains ms, NoDup syms ->
+  (forall p, In p pats <-> In p pats') -> (forall p, In p pats -> word_over syms p) ->
+  exists m m', ac_dfa syms pats contains ms = Ok m /\ ac_dfa syms pats' contains ms = Ok m' /\ L_dfa m =L L_dfa m'.
+Proof.
+  intros syms pats pats' c ms Hnd Hsame Ho.
+  assert (Ho' : forall p, In p pats' -> word_over syms p) by (intros p Hp; apply Ho, Hsame; exact Hp).
+  destruct ms.
+  - destruct (C15_from_substrings_suffix_lang syms pats c Hnd) as [m [E [_ L]]].
+    destruct (C15_from_substrings_suffix_lang syms pats' c Hnd) as [m' [E' [_ L']]].
+    exists m, m'. split; [exact E|]. split; [exact E'|]. intro w. rewrite (L w), (L' w). unfold promised, ends_with_any.
+    assert (H : (exists p, In p pats /\ has_suffix p w) <-> (exists p, In p pats' /\ has_suffix p w)).
+    { split; intros [p [Hp Hs]]; exists p; (split; [apply Hsame; exact Hp|exact Hs]). }
+    destruct c; simpl; rewrite H; reflexivity.
+  - destruct (C15_from_substrings_lang syms pats c Hnd Ho) as [m [E [_ L]]].
+    destruct (C15_from_substrings_lang syms pats' c Hnd Ho') as [m' [E' [_ L']]].
+    exists m, m'. split; [exact E|]. split; [exact E'|]. intro w. rewrite (L w), (L' w). unfold promised, contains_any.
+    assert (H : (exists p, In p pats /\ contains_substring p w) <-> (exists p, In p pats' /\ contains_substring p w)).
+    { split; intros [p [Hp Hs]]; exists p; (split; [apply Hsame; exact Hp|exact Hs]). }
+    destruct c; simpl; rewrite H; reflexivity.
+Qed.
+Print Assumptions C15_from_substrings_order_independent.
+
+(* the trie / failure-link phase on its own: never fails, and its result satisfies the classical specification
+   (string of a node = path from the root; fail = node of the longest proper suffix in the trie, None for the
+   root; out non-empty iff a pattern is a suffix of the node's string) *)
+Theorem C15_aho_corasick_links : forall pats, (forall p, In p pats -> p <> []) ->
+  exists N, ac_trie pats = Ok N /\ ac_spec N pats.
+Proof. exact ac_trie_ok. Qed.
+Print Assumptions C15_aho_corasick_links.
+
+(* GENUINE DEFECT of the code, visible in the faithful model: a pattern with a symbol outside the alphabet leaves
+   trie nodes unvisited by the goto loop, `end_state = len(transitions)` then collides with the label of a
+   visited node.  Alphabet {0}, patterns 11 and 00 (in this order), contains, not must_be_suffix: the word 0
+   is accepted although neither pattern occurs in it.  (DFA.from_substrings({"a"}, {"bb","aa"}) accepts "a".) *)
+Example C15_from_substrings_foreign_symbol_refuted :
+  exists m, ac_dfa [0] [[1;1];[0;0]] true false = Ok m /\ dfa_acc m [0] = true /\ anysubb [[1;1];[0;0]] [0] = false.
+Proof. eexists. split; [vm_compute; reflexivity|]. vm_compute. split; reflexivity. Qed.
 
 (* ---- of_length: counted symbols (all symbols when symbols_to_count is None) in [lo, hi] ---- *)
 Theorem C15_of_length_lang : forall syms lo hi cnt,
@@ -247,6 +315,16 @@ Example C15_example_kmp :      (* the table of the code on 0 0 1 0 0 and on 0 1 
   kmp_table [0;1;0;1;0;2;0] = Ok [None; Some 0; None; Some 0; None; Some 3; None; Some 1] /\
   kmp_dfa [0;1] [0;0;1;0;0] true true = Ok (from_suffix_m [0;1] [0;0;1;0;0] true).
 Proof. vm_compute. repeat split. Qed.
+
+Example C15_example_aho_corasick :      (* patterns 0 1 and 1 1 0, in this order: labels 0; 1="0", 2="01", 3="1", 4="11", 5="110" *)
+  ac_dfa [0;1] [[0;1];[1;1;0]] true true =
+    Ok (mkdfa [0;1;3;2;4;5] [0;1]
+              [(0,[(0,1);(1,3)]); (1,[(0,1);(1,2)]); (3,[(0,1);(1,4)]); (2,[(0,1);(1,4)]); (4,[(0,5);(1,4)]); (5,[(0,1);(1,2)])]
+              0 [2;5] false) /\
+  (exists m, ac_dfa [0;1] [[0;1];[1;1;0]] true false = Ok m /\ size m = 7 /\
+             dfa_acc m [1;1;1;0;0] = true /\ dfa_acc m [1;0;0;0] = false) /\
+  ac_dfa [0;1] [[];[1]] false true = Ok (empty_m [0;1]).
+Proof. vm_compute. split; [reflexivity|]. split; [eexists; repeat split|reflexivity]. Qed.
 
 Example C15_example_numeric :
   dfa_acc (of_length_m [0;1] 1 (Some 2) (Some [1])) [0;1;0;1;0] = true /\
